@@ -83,6 +83,9 @@ def pairing(ctx, rule):
                     # the value is made by a closure literal: judge what the closure returns
                     vb = U.closure_body(ctx, S.strip_refs(v[2][0]))
                     v = S.strip_refs(ctx.sym(vb).local(0)) if hasattr(ctx.sym(vb), "local") else v
+                while v[0] == "upd":
+                    # a freshly built value with single fields set afterwards (`store.lang = lang`) is still fresh
+                    v = S.strip_refs(v[1])
                 fresh = (v[0] == "call" and v[1].endswith(("Vec::with_capacity", "Vec::new", "Store::new", "Default::default", "from_elem"))) \
                     or (v[0] == "agg" and v[1] in ("adt", "array", "tuple"))
                 if v[0] in ("local", "phi"):
@@ -356,7 +359,7 @@ def forwarders(ctx, rule, only=None):
         pn = {i: rb.names.get(i, "_%d" % i) for i in range(1, rb.arg_count + 1)}
         for bi, si, st in b.iter_stmts():
             if st["k"] == "assign" and st["place"]["p"] and not b.blocks[bi]["cleanup"]:
-                pl = sy.place(st["place"])
+                pl = sy.dest(st["place"])
                 if pl[0] == "field" and pl[2] == "limit" and len(pl) > 3 and (pl[3] or "").endswith("::Store"):
                     so = model.origin(b, pl[1])
                     vo = model.origin(b, sy.rvalue(st["rv"]))
@@ -392,7 +395,7 @@ def create_sets_lang(ctx, rule):
         ok = False
         for bi, si, st in b.iter_stmts():
             if st["k"] == "assign" and st["place"]["p"] and not b.blocks[bi]["cleanup"]:
-                pl = sy.place(st["place"])
+                pl = sy.dest(st["place"])
                 if pl[0] == "field" and pl[2] == "lang":
                     vo = ctx.model.origin(b, sy.rvalue(st["rv"]))
                     if vo[0] == "param" and vo[1] == root:
